@@ -16,6 +16,7 @@ package c16
 // and closed inside the bubble of one case.
 
 import (
+	"bytes"
 	"context"
 	"errors"
 	"fmt"
@@ -48,6 +49,8 @@ type attAddr struct {
 	Entry    int     // index of the matching entry in the owner's request
 	Consumed int64   // bytes the server had read from the owner's request stream
 	Written  int     // bytes the server had written to the owner's request stream
+	// OwnerDone: the owner's handler had already returned
+	OwnerDone bool
 }
 
 type attempt struct {
@@ -92,6 +95,7 @@ type reqRun struct {
 	sawDDR  bool  // client side: a DialDataRequest was received
 	ddN     uint64
 	cliDone bool
+	aborted bool // the client reset / closed its end on its own initiative
 }
 
 type world struct {
@@ -124,6 +128,16 @@ type obsAddr struct {
 
 func (w *world) now() time.Duration { return time.Since(w.t0) }
 
+// canon removes one trailing /p2p/<p> component: the peerstore stores (and the host
+// dials) an address named for peer p without it, so both spellings are one address.
+func canon(b []byte, p peer.ID) []byte {
+	sfx := append([]byte{0xa5, 0x03, byte(len(p))}, p...)
+	if len(p) < 128 && len(b) > len(sfx) && bytes.HasSuffix(b, sfx) {
+		return b[:len(b)-len(sfx)]
+	}
+	return b
+}
+
 // recordAttempt snapshots the owning request's counters for every address.
 func (w *world) recordAttempt(kind string, p peer.ID, addrs []ma.Multiaddr) attempt {
 	w.mu.Lock()
@@ -136,11 +150,12 @@ func (w *world) recordAttempt(kind string, p peer.ID, addrs []ma.Multiaddr) atte
 			b = append([]byte(nil), m.Bytes()...)
 		}
 		aa := attAddr{Bytes: b, Entry: -1}
-		if ref, ok := w.owner[string(b)]; ok {
+		if ref, ok := w.owner[string(canon(b, p))]; ok {
 			r := w.reqs[ref[0]]
 			aa.Req, aa.Entry = r, ref[1]
 			aa.Consumed = r.srvEnd.BytesRead.Load()
 			aa.Written = len(r.wlog)
+			aa.OwnerDone = r.handlerDone
 		}
 		a.Addrs = append(a.Addrs, aa)
 	}
@@ -239,20 +254,20 @@ func (n *stubNet) LocalPeer() peer.ID             { return n.self }
 func (n *stubNet) DialPeer(context.Context, peer.ID) (network.Conn, error) {
 	return nil, network.ErrNoConn
 }
-func (n *stubNet) ClosePeer(peer.ID) error                         { return nil }
-func (n *stubNet) Connectedness(peer.ID) network.Connectedness     { return network.NotConnected }
-func (n *stubNet) Peers() []peer.ID                                { return nil }
-func (n *stubNet) Conns() []network.Conn                           { return nil }
-func (n *stubNet) ConnsToPeer(peer.ID) []network.Conn              { return nil }
-func (n *stubNet) Notify(network.Notifiee)                         {}
-func (n *stubNet) StopNotify(network.Notifiee)                     {}
-func (n *stubNet) CanDial(peer.ID, ma.Multiaddr) bool              { return false }
-func (n *stubNet) Close() error                                    { return nil }
-func (n *stubNet) SetStreamHandler(network.StreamHandler)          {}
-func (n *stubNet) Listen(...ma.Multiaddr) error                    { return nil }
-func (n *stubNet) ListenAddresses() []ma.Multiaddr                 { return nil }
+func (n *stubNet) ClosePeer(peer.ID) error                           { return nil }
+func (n *stubNet) Connectedness(peer.ID) network.Connectedness       { return network.NotConnected }
+func (n *stubNet) Peers() []peer.ID                                  { return nil }
+func (n *stubNet) Conns() []network.Conn                             { return nil }
+func (n *stubNet) ConnsToPeer(peer.ID) []network.Conn                { return nil }
+func (n *stubNet) Notify(network.Notifiee)                           {}
+func (n *stubNet) StopNotify(network.Notifiee)                       {}
+func (n *stubNet) CanDial(peer.ID, ma.Multiaddr) bool                { return false }
+func (n *stubNet) Close() error                                      { return nil }
+func (n *stubNet) SetStreamHandler(network.StreamHandler)            {}
+func (n *stubNet) Listen(...ma.Multiaddr) error                      { return nil }
+func (n *stubNet) ListenAddresses() []ma.Multiaddr                   { return nil }
 func (n *stubNet) InterfaceListenAddresses() ([]ma.Multiaddr, error) { return nil, nil }
-func (n *stubNet) ResourceManager() network.ResourceManager        { return &network.NullResourceManager{} }
+func (n *stubNet) ResourceManager() network.ResourceManager          { return &network.NullResourceManager{} }
 func (n *stubNet) NewStream(context.Context, peer.ID) (network.Stream, error) {
 	return nil, network.ErrNoConn
 }
